@@ -108,7 +108,7 @@ def model_check(ctx, cfgs):
     return cases, r
 
 
-def judge(ctx, step, records, per_sig=25):
+def judge(ctx, step, records, per_sig=10):
     """Trace_PanicFlow over the records, sharded and in parallel.  Returns (bad entries, stats)."""
     size = min(SHARD, max(400, -(-len(records) // 8)))
     shards = [records[i:i + size] for i in range(0, max(len(records), 1), size)]
@@ -164,7 +164,7 @@ func xR(v any) {
 	if v == nil {
 		println(100)
 	} else {
-		println(100 + v.(int))
+		println(100 + v.(int)%1000)
 	}
 }
 func xDo(f func()) { f() }
@@ -207,12 +207,10 @@ def gc_observe(ctx, cases, tag):
             m = re.match(r"^\t?panic: (-?\d+)( \[recovered(, repanicked)?\])?$", line)
             if m:
                 in_panic = True
-                v = int(m.group(1))
-                if m.group(3):            # one line for "recovered and raised again with the same value"
-                    chain.append({"v": v, "rec": True})
-                    chain.append({"v": v, "rec": False})
-                else:
-                    chain.append({"v": v, "rec": bool(m.group(2))})
+                v = int(m.group(1)) % 1000          # every panic statement of the gc rendering has its own value k + 1000*u
+                if m.group(3):                      # (gc merges equal consecutive values into one line: cannot happen)
+                    raise Infra(f"gc merged two panics of program {s['id']}: {line!r}")
+                chain.append({"v": v, "rec": bool(m.group(2))})
             elif not in_panic and re.match(r"^-?\d+$", line):
                 out.append(int(line))
             elif not in_panic:
@@ -398,7 +396,7 @@ def run(ctx, only_cases=None):
     lap("confirm_drive_and_gc")
     if second:
         b2, _ = judge(ctx, "trace_second", second, per_sig=1000000)
-        keys2 = {bad_key(b) for b in b2 if b["id"] < 900000 and b["obs"]["runs"][0]["variant"] != "gc"}
+        keys2 = {bad_key(b) for b in b2 if not (900000 <= b["id"] < 1000000) and b["obs"]["runs"][0]["variant"] != "gc"}
         confirmed = [b for b in chosen if bad_key(b) in keys2]
         ctx.cov["unreproduced"] = len(chosen) - len(confirmed)
         if chosen:
